@@ -39,6 +39,15 @@ def routing(ctx, case, cfg, family, seed, name):
     if st["dead_ends"]:
         ctx.violation(sig_of(cfg, q="dead_end", family=family), f"explorer reached a state with no feasible action after {list(st['dead_ends'][0])}", dict(inst=inst, prefix=list(st["dead_ends"][0])))
     if not complete:
+        if st.get("reason") == "max_depth":
+            # every mask-admitted history is longer than the problem's step bound: nothing completes. If the problem has a
+            # feasible solution at all, the mask hides all of them
+            feas = next((seq for c, seq in explore.candidates(name, inst) if not O.violations(inst, seq)), None)
+            ctx.evaluation()
+            if feas is not None:
+                ctx.violation(sig_of(cfg, q="feasible_unreachable", family=family, exact_fill=False, none_reachable=True),
+                              f"no mask-admitted history completes within {O.step_bound(inst) + 2} steps although feasible solutions exist (e.g. {feas})", dict(inst=inst, candidate=feas, leaves=len(leaves)))
+                return
         ctx.count("c05_instances_incomplete")
         ctx.note(f"explorer budget hit for {name} n={cfg['n']} ({st.get('reason')})")
         return
